@@ -362,6 +362,11 @@ fn passthrough_line(r: &mut Rng, c: &mut Config) -> String {
             if t.wait != expect.timeouts.wait || t.create != expect.timeouts.create || t.recycle != expect.timeouts.recycle {
                 problems.push(format!("timeouts {:?} != {:?}", t, expect.timeouts));
             }
+            // the queue mode has no getter: it shows in the pool's Debug output
+            let pdbg = format!("{:?}", pool);
+            if !pdbg.contains(&format!("queue_mode: {:?}", expect.queue_mode)) {
+                problems.push(format!("queue_mode {:?} of the pool section did not reach the pool", expect.queue_mode));
+            }
             let dbg = format!("{:?}", pool.manager());
             if !dbg.contains(&format!("{:?}", expect_mgr)) {
                 problems.push(format!("manager config not passed through: {}", dbg.chars().take(120).collect::<String>()));
